@@ -1,6 +1,6 @@
 ENGINES = [
     {'name': 'mirsym', 'path': '/verif/mirsym',
-     'serves_properties': ['C17', 'C18'],
+     'serves_properties': ['C17', 'C18', 'C19'],
      'kind_free_text': 'symbolic executor over the MIR that rustc emits for /repo\'s working tree (regenerated per tree state); std modelled at the call boundary; z3 QF_BV decides every branch and every obligation; counterexamples replayed natively through /verif/replay'},
 ]
 NOTES = 'Every check: exit 0 = held for all inputs inside the stated bounds (KNOWN-FINDING lines allowed); exit 1 = natively reproducing violation; exit 2 = inconclusive (unsupported construct, solver unknown, model/native mismatch, vacuous harness) and is never reported as a pass.'
@@ -18,11 +18,17 @@ CHECKS['C18'] = {
     'note': 'reference models of git.c option scanning and alias.c split_cmdline are the trusted part (every counterexample is confirmed by running the installed git); token alphabet and lengths in evidence.coverage.bounds',
     'technique': 'MIR symbolic execution + z3 (bounded), differential against reference models, replay against real git',
 }
+CHECKS['C19'] = {
+    'text': 'Bounded symbolic execution of the real statistics code: for every note / added-line set / numstat text inside the bounds the solver decides accepted == |added lines the note lists| (as a set), human + accepted == added, ai_additions == accepted + mixed <= added, every per-tool field sums to its total, and added/deleted equal the sum of the non-ignored numstat rows. Counterexamples are replayed against the compiled code (numstat ones on a real commit built to print that numstat).',
+    'design_ref': 'DESIGN.md §4 C19',
+    'note': 'git subprocess and ignore matcher are environment models (numstat grammar, arbitrary predicate); counters < 2^20 so that u32 sums cannot overflow; transcripts empty',
+    'technique': 'MIR symbolic execution + z3 (bounded), native replay of counterexamples',
+}
 _PENDING = 'check not built yet in this round (under construction; see DESIGN.md §4)'
 NOT_APPLICABLE = {
     'C01': _PENDING, 'C02': _PENDING, 'C03': _PENDING, 'C04': _PENDING, 'C05': _PENDING, 'C06': _PENDING,
     'C07': _PENDING, 'C08': _PENDING, 'C09': _PENDING, 'C12': _PENDING, 'C14': _PENDING, 'C15': _PENDING,
-    'C16': _PENDING, 'C19': _PENDING, 'C20': _PENDING,
+    'C16': _PENDING, 'C20': _PENDING,
     'C10': 'convergence of notes across clones is decided by git\'s notes-merge / ref-transaction semantics over several repositories; git-ai\'s part is a fixed sequence of subprocess calls with no branch the solver could decide (DESIGN.md §7)',
     'C11': 'interleavings of processes over a file system and git ref locks; neither Kani nor the MIR executor models OS-level concurrency (DESIGN.md §7)',
     'C13': 'equivalence of two drivers of one state machine under sequences of real git operations; no input can be made symbolic without modelling git\'s rebase/cherry-pick/stash sequencing (DESIGN.md §7)',
